@@ -48,6 +48,21 @@ pub fn build(raw: &Raw, _tier: Tier, _sched: bool) -> Scenario {
                         r2.b |= 0x8;
                     }
                     let a = scripted_action(&mut b, s, &r2, &o);
+                    // verdicts in the phases after the reducers: none of them may keep an effect
+                    // that was left in the list from running (DoneAction / Err in before_effect
+                    // remove nothing; BreakChain only spares the later middlewares' removals)
+                    for (j, mw) in mws.iter().enumerate() {
+                        let v = match (r.a >> (3 * j)) & 7 {
+                            5 => Some(Verdict::Done),
+                            6 => Some(Verdict::Break),
+                            7 => Some(Verdict::Err),
+                            _ => None,
+                        };
+                        if let Some(v) = v {
+                            let hook = if (r.a >> 9) & 1 == 0 { Hook::BeforeEffect } else { Hook::BeforeDispatch };
+                            b.act_mut(a).verdicts.push((*mw, hook, v));
+                        }
+                    }
                     // before_effect removal masks
                     let effs: Vec<EffId> = b.s.actions[a as usize].effects.iter().map(|(_, e)| e.id).collect();
                     for (j, mw) in mws.iter().enumerate() {
